@@ -28,6 +28,10 @@ LEAVES = [
     ('i32_range', Integer32(ge=100, le=1000)), ('u8_le', UnsignedInteger8(le=200)),
     ('s_len', Unicode(min_len=2, max_len=4)), ('s_max', Unicode(max_len=3)), ('s_pat', Unicode(pattern='[a-c]+[0-9]')),
     ('s_alt', Unicode(pattern='ab|abc')), ('s_enum', Unicode(values=['ab', 'cd', 'abc'])),
+    # combinations of facets on one type
+    ('s_fixpat', Unicode(min_len=3, max_len=3, pattern='[a-c]+')), ('s_lenpat', Unicode(min_len=2, max_len=4, pattern='[ab]*9')),
+    ('s_maxenum', Unicode(max_len=2, values=['ab', 'abc', 'd'])), ('i_enum', Integer(values=[1, 5, -20])),
+    ('i_range_enum', Integer(ge=0, values=[-1, 3, 10])),
 ]
 def max_str_len(name):
     return dict(LEAVES)[name].Attributes.max_str_len
@@ -145,6 +149,8 @@ def xsd_accepts_text(sx, decl, text):
                       ('minExclusive', lambda v, b: v > b), ('maxExclusive', lambda v, b: v < b)):
             if k in f:
                 cs.append(op(val, int(f[k])))
+        if 'enumeration' in f:
+            cs.append(sx.Or(*[val == int(v) for v in f['enumeration']]))     # compared in the value space
         return sx.And(*cs)
     if base == 'string':
         n = sx.length(text)
@@ -238,7 +244,7 @@ def schema_vs_soft_occurs(sx, g):
     return compiled.validate(f) == out.accepted
 
 
-@harness('C06', params=[n for n, _ in LEAVES if n not in ('s_pat', 's_alt', 's_enum', 's_len', 's_max')] + ['hexbin', 'b64bin'],
+@harness('C06', params=[n for n, _ in LEAVES if not n.startswith('s_')] + ['hexbin', 'b64bin'],
          functions=FUNCS[:6] + ['spyne.protocol._outbase.OutProtocolBase.to_unicode',
                                 'spyne.protocol._outbase.OutProtocolBase.byte_array_to_unicode'],
          bounds={'value': 'every integer admitted by the type (|v| <= 10^22); byte strings from a fixed list of 4'})
@@ -348,3 +354,86 @@ def schema_compiles(sx, p):
     xs = XmlSchema(app.interface)
     xs.build_validation_schema()
     return xs.validation_schema is not None
+
+
+# ---------------------------------------------------------------- XML attributes: published use="required" vs what is written
+from spyne.model.complex import XmlAttribute
+
+
+class AttrHolder(ComplexModel):
+    __namespace__ = TNS
+    _type_info = [('off', XmlAttribute(Integer, use='required')), ('flag', XmlAttribute(Boolean, use='required')),
+                  ('name', XmlAttribute(Unicode, use='required')), ('opt', XmlAttribute(Integer)), ('body', Unicode)]
+
+
+class ASvc(Service):
+    @rpc(AttrHolder, _returns=AttrHolder)
+    def g(ctx, at):
+        return at
+
+
+AAPP = Application([ASvc], TNS, in_protocol=XmlDocument(validator='soft'), out_protocol=XmlDocument())
+ACTX = fake_ctx(AAPP)
+AOUT = XmlDocument(app=AAPP)
+_AXS = {}
+
+
+class _StubParent(object):
+    def __init__(self):
+        self.attrib = {}
+
+    def set(self, k, v):
+        self.attrib[k] = v
+
+
+def _attr_decls():
+    """{attribute name: use} as published for AttrHolder by the real schema emitter"""
+    if not _AXS:
+        xs = XmlSchema(AAPP.interface)
+        xs.build_validation_schema()
+        root = xs.schema_dict[AAPP.interface.get_namespace_prefix(TNS)]
+        ct = [c for c in root.findall(q('complexType')) if c.get('name') == 'AttrHolder'][0]
+        _AXS['use'] = dict((a.get('name'), a.get('use')) for a in ct.iter(q('attribute')))
+        _AXS['compiled'] = xs.validation_schema
+    return _AXS['use'], _AXS['compiled']
+
+
+@harness('C06', functions=['spyne.protocol.xml.XmlDocument.xmlattribute_to_parent',
+                           'spyne.interface.xml_schema.model.complex_add', 'spyne.protocol._outbase.OutProtocolBase.to_unicode'],
+         bounds={'value': 'an object with three required attributes (integer |v| <= 10^6, boolean, string of 0..2 characters) and '
+                          'one optional integer attribute (given or None); every value symbolic, so the falsy ones 0 / False / "" '
+                          'are inside'})
+def emitted_attributes_valid(sx, p):
+    """every attribute published with use="required" is written whenever the object has a value for it, as a literal
+    that reads back as that value (native replay: the whole element validates against the compiled schema)"""
+    use, compiled = _attr_decls()
+    off, flag = sx.int('off', -10 ** 6, 10 ** 6), sx.bool('flag')
+    n = sx.choose('nlen', [0, 1, 2])
+    name = sx.text('name', n, alphabet='ab ') if n else u''
+    opt = sx.int('opt', -9, 9) if sx.choose('has_opt', [1, 0]) else None
+    vals = {'off': off, 'flag': flag, 'name': name, 'opt': opt}
+    if not sx.symbolic:
+        from lxml import etree
+        parent = etree.Element('{%s}g' % TNS, nsmap={None: TNS})
+        AOUT.to_parent(ACTX, AttrHolder, AttrHolder(body=u'x', **vals), parent, TNS, 'at')
+        doc = etree.fromstring(etree.tostring(parent))
+        if not compiled.validate(doc):
+            return False
+        back = SOFT.from_element(ACTX, AttrHolder, doc[0])
+        return back.off == off and back.flag == flag and (back.name or u'') == name and back.opt == opt
+    ok = []
+    for k, v in vals.items():
+        T = AttrHolder._type_info[k]
+        par = _StubParent()
+        AOUT.xmlattribute_to_parent(ACTX, T, v, par, TNS, k)
+        if v is None:
+            ok.append(par.attrib == {})
+            continue
+        if len(par.attrib) != 1:
+            if use.get(k) == 'required':
+                return False
+            ok.append(False)        # an optional attribute that has a value is written too
+            continue
+        text = list(par.attrib.values())[0]
+        ok.append(sx.eq(SOFT.from_unicode(T.type, text), v))
+    return sx.And(*ok)
